@@ -115,3 +115,16 @@ package optdec
 //@   ensures nType(node) != KNull ==> ((result == nil) <==> (asU64ok(node, ctx)))
 //@   ensures (nType(node) != KNull && result == nil) ==> int(*cast(*uint64, vp)) == int(asU64val(node, ctx))
 //@   ensures result != nil ==> *cast(*uint64, vp) == old(*cast(*uint64, vp))
+
+// SkipNumberFast: the end of the maximal run of number characters (digits . - + e E)
+// starting at start; ok iff the run is not empty.  (C11/C19: a number token such as
+// 1e+5 must be taken whole.)
+//@ pure func numCh(c byte) bool = (c >= 0x30 && c <= 0x39) || c == 0x2e || c == 0x2d || c == 0x2b || c == 0x65 || c == 0x45
+//@ func SkipNumberFast props C11,C19,C07
+//@   requires 0 <= start && start <= len(json)
+//@   ensures start <= r0 && r0 <= len(json) && r1 == (r0 != start)
+//@   ensures forall k int :: (start <= k && k < r0) ==> numCh(json[k])
+//@   ensures r0 < len(json) ==> !numCh(json[r0])
+//@   loop 0: invariant start <= pos && pos <= len(json)
+//@   loop 0: invariant forall k int :: (start <= k && k < pos) ==> numCh(json[k])
+//@   loop 0: decreases len(json) - pos
